@@ -58,6 +58,9 @@ func v2ops() []v2op {
 		{"Query", func(c *v2.Client, g, i int) {
 			c.Query(ctx, &dynamodb.QueryInput{TableName: aws.String("base"), KeyConditionExpression: aws.String("h = :h"), ExpressionAttributeValues: map[string]v2types.AttributeValue{":h": s2("ctr")}})
 		}},
+		{"QueryIndex", func(c *v2.Client, g, i int) {
+			c.Query(ctx, &dynamodb.QueryInput{TableName: aws.String("base"), IndexName: aws.String("idx"), KeyConditionExpression: aws.String("g = :g"), ExpressionAttributeValues: map[string]v2types.AttributeValue{":g": s2("x")}})
+		}},
 		{"Scan", func(c *v2.Client, g, i int) {
 			c.Scan(ctx, &dynamodb.ScanInput{TableName: aws.String("base"), IndexName: aws.String("idx")})
 		}},
@@ -167,6 +170,17 @@ func TestPairsV1(t *testing.T) {
 		},
 		func(g, i int) { c.Scan(&v1sdk.ScanInput{TableName: aws.String("base"), IndexName: aws.String("idx")}) },
 		func(g, i int) {
+			c.Query(&v1sdk.QueryInput{TableName: aws.String("base"), IndexName: aws.String("idx"), KeyConditionExpression: aws.String("g = :g"),
+				ExpressionAttributeValues: map[string]*v1sdk.AttributeValue{":g": {S: aws.String("x")}}})
+		},
+		func(g, i int) {
+			c.Query(&v1sdk.QueryInput{TableName: aws.String("base"), IndexName: aws.String("idx"), KeyConditionExpression: aws.String("g = :g"),
+				ExpressionAttributeValues: map[string]*v1sdk.AttributeValue{":g": {S: aws.String("x")}}})
+		},
+		func(g, i int) {
+			c.GetItem(&v1sdk.GetItemInput{TableName: aws.String("base"), Key: map[string]*v1sdk.AttributeValue{"h": {S: aws.String("ctr")}}})
+		},
+		func(g, i int) {
 			name := fmt.Sprintf("t%d_%d", g, i)
 			v1.AddTable(c, name, "h", "")
 			c.DescribeTable(&v1sdk.DescribeTableInput{TableName: aws.String(name)})
@@ -194,6 +208,71 @@ func TestPairsV1(t *testing.T) {
 		}(g)
 	}
 	wg.Wait()
+}
+
+// concurrent reads through one index, no writer: every read returns every item (an index search uses
+// scratch state of the index, so reads are not read-only)
+func TestConcurrentIndexReads(t *testing.T) {
+	const items = 40
+	c2 := newV2(t)
+	c1 := v1.NewClient()
+	v1.AddTable(c1, "base", "h", "")
+	v1.AddIndex(c1, "base", "idx", "g", "")
+	for i := 0; i < items; i++ {
+		c2.PutItem(ctx, &dynamodb.PutItemInput{TableName: aws.String("base"), Item: map[string]v2types.AttributeValue{"h": s2(fmt.Sprint("k", i)), "g": s2("x")}})
+		c1.PutItem(&v1sdk.PutItemInput{TableName: aws.String("base"), Item: map[string]*v1sdk.AttributeValue{"h": {S: aws.String(fmt.Sprint("k", i))}, "g": {S: aws.String("x")}}})
+	}
+	var wg sync.WaitGroup
+	var mu sync.Mutex
+	short := 0
+	for g := 0; g < 8; g++ {
+		wg.Add(1)
+		go func(g int) {
+			defer wg.Done()
+			defer func() {
+				if r := recover(); r != nil {
+					mu.Lock()
+					short++
+					mu.Unlock()
+				}
+			}()
+			for i := 0; i < rounds(); i++ {
+				n := 0
+				switch g % 4 {
+				case 0:
+					o, err := c2.Query(ctx, &dynamodb.QueryInput{TableName: aws.String("base"), IndexName: aws.String("idx"), KeyConditionExpression: aws.String("g = :g"), ExpressionAttributeValues: map[string]v2types.AttributeValue{":g": s2("x")}})
+					if err == nil {
+						n = len(o.Items)
+					}
+				case 1:
+					o, err := c2.Scan(ctx, &dynamodb.ScanInput{TableName: aws.String("base"), IndexName: aws.String("idx")})
+					if err == nil {
+						n = len(o.Items)
+					}
+				case 2:
+					o, err := c1.Query(&v1sdk.QueryInput{TableName: aws.String("base"), IndexName: aws.String("idx"), KeyConditionExpression: aws.String("g = :g"),
+						ExpressionAttributeValues: map[string]*v1sdk.AttributeValue{":g": {S: aws.String("x")}}})
+					if err == nil {
+						n = len(o.Items)
+					}
+				default:
+					o, err := c1.Scan(&v1sdk.ScanInput{TableName: aws.String("base"), IndexName: aws.String("idx")})
+					if err == nil {
+						n = len(o.Items)
+					}
+				}
+				if n != items {
+					mu.Lock()
+					short++
+					mu.Unlock()
+				}
+			}
+		}(g)
+	}
+	wg.Wait()
+	if short != 0 {
+		t.Fatalf("INDEX-READS: %d concurrent index reads did not return all %d items", short, items)
+	}
 }
 
 // N concurrent ADD 1 updates yield N
